@@ -171,6 +171,10 @@ def source_fn(desc, ieq, dim=1):
         # the source IS one of the conserved variables: the function returns the state array it was given (no copy), e.g. S_mass = rho u
         j = desc["var"]
         return lambda x, q, j=j: q[j]
+    if mode == "ratio":
+        # a state-dependent source that does not change when the whole state is scaled: a drag proportional to the velocity, k * q1 / q0
+        k = desc.get("c0", 1.0)
+        return lambda x, q, k=k: k * q[1] / q[0]
     if mode == "table":
         # tabulated source: the same array object is returned at every call (the user's table must never be modified)
         cache = {}
@@ -199,6 +203,8 @@ def source_value(desc, x, q):
         return 0.0 * np.asarray(x, dtype=float)
     if desc.get("mode") == "view":
         return np.array(q[desc["var"]], dtype=float, copy=True)
+    if desc.get("mode") == "ratio":
+        return desc.get("c0", 1.0) * np.asarray(q[1], dtype=float) / np.asarray(q[0], dtype=float)
     if desc.get("mode") == "table":
         return desc.get("c0", 0.0) + desc.get("cx", 0.0) * np.asarray(x, dtype=float)
     out = desc.get("c0", 0.0) + desc.get("cx", 0.0) * np.asarray(x, dtype=float)
